@@ -563,6 +563,12 @@ class SignHandler(Handler):
             return None if v is None else f"neg({v})"
         if isinstance(node, ast.UnaryOp) and isinstance(node.op, ast.UAdd):
             return self._val(node.operand)
+        if isinstance(node, ast.IfExp):
+            t = self.test(node.test)
+            if t is None and isinstance(node.test, ast.UnaryOp) and isinstance(node.test.op, ast.Not):
+                t = self.test(node.test.operand)
+                t = None if t is None else not t
+            return None if t is None else self._val(node.body if t else node.orelse)
         if isinstance(node, ast.Call) and isinstance(node.func, ast.Name) and not node.args:
             r = self.repo.resolve(self.module, node.func.id)
             if r and r[1] == "class":
